@@ -1188,8 +1188,78 @@ func (x *e2eRunner) dump(names []string, accept, epoch string) (string, map[stri
 		t.name = []byte(name)
 		tables[name] = t
 		parts = append(parts, t.text())
+		// SELECT <field>: the same values as the column of SELECT * (first and last field column)
+		if !strings.Contains(accept, "csv") && epoch == "ns" {
+			if msg := x.selectField(vname, name, fields, tags, t); msg != "" {
+				return "", nil, fmt.Errorf("%s", msg)
+			}
+		}
 	}
 	return strings.Join(parts, " | "), tables, nil
+}
+
+// selectField runs SELECT "<f>" FROM m for up to two field columns of t and compares the
+// values with the column of SELECT *. "" = equal (or the key cannot be written in InfluxQL).
+func (x *e2eRunner) selectField(vname, name string, fields map[string]influxql.DataType, tags []string, t *qtable) string {
+	var keys []string
+	for k := range fields {
+		if utf8.ValidString(k) && !strings.ContainsAny(k, "\x00\n\r") {
+			keys = append(keys, k)
+		}
+	}
+	sort.Strings(keys)
+	if len(keys) > 2 {
+		keys = []string{keys[0], keys[len(keys)-1]}
+	}
+	for _, k := range keys {
+		col := -1
+		for j, c := range t.cols {
+			if string(c.name) == k && c.typ != 't' {
+				col = j
+			}
+		}
+		if col < 0 {
+			continue
+		}
+		var want []string
+		for _, r := range t.rows {
+			if !r.cells[col].null {
+				want = append(want, strconv.FormatInt(r.ts, 10)+":"+r.cells[col].text())
+			}
+		}
+		sort.Strings(want)
+		q := "SELECT " + influxql.QuoteIdent(k) + " FROM " + influxql.QuoteIdent(vname)
+		var res []engine.VerifSeries
+		var err error
+		if perr := hx.Safe(func() { res, err = x.e.sh.Query(q, fields, tags, 0) }); perr != "" {
+			return fmt.Sprintf("%s: %s", q, perr)
+		}
+		if err != nil {
+			x.c.Count("e2e:select-field:query-refused")
+			continue
+		}
+		out, err := render(res, "application/json", "ns")
+		if err != nil {
+			return fmt.Sprintf("%s: render: %v", q, err)
+		}
+		ty := t.cols[col].typ
+		ft, err := decodeJSON(out, map[string]byte{k: ty}, "ns")
+		if err != nil {
+			return fmt.Sprintf("%s: %v; answer %s", q, err, short(out))
+		}
+		var got []string
+		for _, r := range ft.rows {
+			if len(r.cells) == 1 && !r.cells[0].null {
+				got = append(got, strconv.FormatInt(r.ts, 10)+":"+r.cells[0].text())
+			}
+		}
+		sort.Strings(got)
+		if strings.Join(got, ";") != strings.Join(want, ";") {
+			return fmt.Sprintf("%s answers %v, the column of SELECT * holds %v (measurement %q)", q, got, want, name)
+		}
+		x.c.Count("e2e:select-field:same")
+	}
+	return ""
 }
 
 var errKeysCollide = fmt.Errorf("two keys of the measurement are the same text once rendered")
